@@ -35,6 +35,14 @@ pub struct Cfg {
     pub effects: bool,
     /// let `array_set` results flow un-annotated (wildcard array length, known finding)
     pub wildcard_arrays: bool,
+    /// surface forms whose meaning the front end decides: struct patterns with their fields in
+    /// declaration / reversed / shuffled order (with `_`, shorthand, literal sub-patterns), nested
+    /// struct-in-enum-in-tuple patterns, struct literals with fields out of order, string and
+    /// integer literal patterns, locals spelled like functions, the three call forms of a method
+    pub src_forms: bool,
+    /// struct literals written out of declaration order whose initialisers have effects
+    /// (evaluation order of the initialisers; known finding): separate stream
+    pub lit_field_effects: bool,
     /// C06: matches with nested patterns (tuples, structs, enums, literals) over random data types
     pub nested_patterns: bool,
 }
@@ -173,6 +181,11 @@ impl<'a> Gen<'a> {
             return self.leaf(t, scope, pre);
         }
         let d = depth - 1;
+        if self.cfg.src_forms && self.rng.chance(1, 4) {
+            if let Some(e) = self.src_form(t, scope, d, pre) {
+                return e;
+            }
+        }
         // forms available at every type
         match self.rng.below(12) {
             0 => {
@@ -263,7 +276,7 @@ impl<'a> Gen<'a> {
                 let mut sc = scope.clone();
                 sc.push((p.clone(), pt.clone()));
                 let body = if self.rng.chance(1, 2) { self.block(t, &sc, d) } else { self.expr_nopre(t, &sc, d) };
-                let f = self.fresh("f");
+                let f = self.fresh("fc");
                 let arg = self.expr(&pt, scope, d, pre);
                 write!(pre, "let {} = |{}: {}| {}; ", f, p, self.ty_text(&pt), body).unwrap();
                 return format!("{}({})", f, arg);
@@ -316,6 +329,194 @@ impl<'a> Gen<'a> {
             _ => {}
         }
         self.typed_expr(t, scope, d, pre)
+    }
+
+    fn shuffle(&mut self, xs: &mut Vec<usize>) {
+        for i in (1..xs.len()).rev() {
+            let j = self.rng.below(i + 1);
+            xs.swap(i, j);
+        }
+    }
+
+    /// a literal pattern of type `t` (integers carry their suffix half of the time where one exists)
+    fn lit_pat(&mut self, t: &T) -> Option<String> {
+        let n = self.rng.below(4);
+        Some(match t {
+            T::I32 => if self.rng.chance(1, 3) { format!("{}i32", n) } else { format!("{}", [0, 1, 2, 7, 1000003][self.rng.below(5)]) },
+            T::I8 => format!("{}i8", [0, 1, 5, 127][n]),
+            T::U8 => format!("{}u8", [0, 1, 16, 255][n]),
+            T::I64 => format!("{}i64", [0i64, 3, 4294967296, 9223372036854775807][n]),
+            T::U32 => format!("{}u32", [0u32, 2, 65536, 4294967295][n]),
+            T::Bool => if n < 2 { "true".into() } else { "false".into() },
+            T::Str => format!("\"{}\"", ["a", "bc", "", "goml"][n]),
+            _ => return None,
+        })
+    }
+
+    /// a pattern for struct `si` with its fields written in declaration, reversed or shuffled
+    /// order; sub-patterns are variables (added to `sc`), `_`, shorthand `f0`, or — when
+    /// `refutable` — literals
+    fn struct_pat(&mut self, si: usize, sc: &mut Scope, refutable: bool) -> String {
+        let fts = self.structs[si].fields.clone();
+        let mut order: Vec<usize> = (0..fts.len()).collect();
+        match self.rng.below(3) {
+            0 => self.feat("struct-pat-declared-order"),
+            1 => {
+                order.reverse();
+                self.feat("struct-pat-reversed-order");
+            }
+            _ => {
+                self.shuffle(&mut order);
+                self.feat("struct-pat-shuffled-order");
+            }
+        }
+        let mut parts = Vec::new();
+        for k in order {
+            let ft = fts[k].clone();
+            match self.rng.below(6) {
+                0 => parts.push(format!("f{}: _", k)),
+                1 => {
+                    self.feat("struct-pat-shorthand");
+                    // the shorthand binder shadows an earlier binder of that name (of any type)
+                    sc.retain(|(n, _)| *n != format!("f{}", k));
+                    sc.push((format!("f{}", k), ft));
+                    parts.push(format!("f{}", k));
+                }
+                2 | 3 if refutable => match self.lit_pat(&ft) {
+                    Some(l) => {
+                        self.feat("struct-pat-literal-field");
+                        parts.push(format!("f{}: {}", k, l));
+                    }
+                    None => parts.push(format!("f{}: _", k)),
+                },
+                _ => {
+                    let v = self.fresh("b");
+                    sc.push((v.clone(), ft));
+                    parts.push(format!("f{}: {}", k, v));
+                }
+            }
+        }
+        format!("S{} {{ {} }}", si, parts.join(", "))
+    }
+
+    /// surface forms whose meaning the front end decides (Cfg::src_forms)
+    fn src_form(&mut self, t: &T, scope: &Scope, d: usize, pre: &mut String) -> Option<String> {
+        match self.rng.below(7) {
+            0 | 1 => {
+                // match on a struct: refutable arms with literal fields, then an irrefutable one
+                self.feat("match-struct");
+                let si = self.rng.below(self.structs.len());
+                // (a struct literal cannot stand in scrutinee position: bind it first)
+                let s = self.fresh("ms");
+                let e = self.expr(&T::Struct(si), scope, d, pre);
+                write!(pre, "let {} = {}; ", s, e).unwrap();
+                let mut arms = String::new();
+                for _ in 0..self.rng.below(3) {
+                    let mut sc = scope.clone();
+                    let p = self.struct_pat(si, &mut sc, true);
+                    let body = self.arm_body(t, &sc, d);
+                    write!(arms, "{} => {}, ", p, body).unwrap();
+                }
+                let mut sc = scope.clone();
+                let p = if self.rng.chance(1, 3) { "_".to_string() } else { self.struct_pat(si, &mut sc, false) };
+                let body = self.arm_body(t, &sc, d);
+                write!(arms, "{} => {}, ", p, body).unwrap();
+                Some(format!("match {} {{ {}}}", s, arms))
+            }
+            2 => {
+                // struct inside an enum inside a tuple
+                self.feat("match-nested-struct-enum-tuple");
+                let k = self.expr(&T::I32, scope, d, pre);
+                let scrut_enum = match self.rng.below(4) {
+                    0 => "EN::NB".to_string(),
+                    1 => format!("EN::NC({})", self.expr(&T::I32, scope, d, pre)),
+                    _ => {
+                        let sv = self.expr(&T::Struct(0), scope, d, pre);
+                        let n = self.expr(&T::I32, scope, d, pre);
+                        format!("EN::NA({}, {})", sv, n)
+                    }
+                };
+                let mut arms = String::new();
+                {
+                    let mut sc = scope.clone();
+                    let p = self.struct_pat(0, &mut sc, true);
+                    let lit = self.lit_pat(&T::I32).unwrap();
+                    let body = self.arm_body(t, &sc, d);
+                    write!(arms, "(EN::NA({}, _), {}) => {}, ", p, lit, body).unwrap();
+                }
+                {
+                    let mut sc = scope.clone();
+                    let p = self.struct_pat(0, &mut sc, false);
+                    let v = self.fresh("n");
+                    sc.push((v.clone(), T::I32));
+                    let body = self.arm_body(t, &sc, d);
+                    write!(arms, "(EN::NA({}, {}), _) => {}, ", p, v, body).unwrap();
+                }
+                {
+                    let v = self.fresh("n");
+                    let mut sc = scope.clone();
+                    sc.push((v.clone(), T::I32));
+                    let body = self.arm_body(t, &sc, d);
+                    write!(arms, "(EN::NC(7), {}) => {}, ", v, body).unwrap();
+                }
+                let body = self.arm_body(t, scope, d);
+                write!(arms, "_ => {}, ", body).unwrap();
+                // (the parser takes no struct literal anywhere inside a scrutinee: bind it first)
+                let sv = self.fresh("ms");
+                write!(pre, "let {} = ({}, {}); ", sv, scrut_enum, k).unwrap();
+                Some(format!("match {} {{ {}}}", sv, arms))
+            }
+            3 => {
+                // string / wide-integer literal patterns
+                let st = [T::Str, T::I64, T::U32, T::I32, T::Bool][self.rng.below(5)].clone();
+                self.feat(if st == T::Str { "match-string-literal" } else { "match-literal" });
+                let s = self.expr(&st, scope, d, pre);
+                let mut arms = String::new();
+                for _ in 0..1 + self.rng.below(3) {
+                    let l = self.lit_pat(&st).unwrap();
+                    let body = self.arm_body(t, scope, d);
+                    write!(arms, "{} => {}, ", l, body).unwrap();
+                }
+                let v = self.fresh("n");
+                let mut sc = scope.clone();
+                sc.push((v.clone(), st.clone()));
+                let body = self.arm_body(t, &sc, d);
+                write!(arms, "{} => {}, ", v, body).unwrap();
+                Some(format!("match {} {{ {}}}", s, arms))
+            }
+            4 if *t == T::I32 => {
+                // a local (let / closure parameter / pattern variable) spelled like a function
+                self.feat("local-shadows-function");
+                let name = ["fun0", "fun1", "fun2", "main", "pick", "show_twice", "string_len"][self.rng.below(7)];
+                let a = self.int_lit(&T::I32);
+                let b = self.int_lit(&T::I32);
+                Some(match self.rng.below(3) {
+                    0 => format!("if true {{ let {n} = {a}; ({n} + {b}) }} else {{ {b} }}", n = name, a = a, b = b),
+                    1 => {
+                        let c = self.fresh("fc");
+                        write!(pre, "let {c} = |{n}: int32| ({n} * {b}); ", c = c, n = name, b = b).unwrap();
+                        format!("{}({})", c, a)
+                    }
+                    _ => format!("match ({a}, {b}) {{ ({n}, _) => ({n} - 1), }}", a = a, b = b, n = name),
+                })
+            }
+            5 if *t == T::I32 && self.cfg.traits => {
+                // the three call forms of a method on one receiver; the inherent and the trait method
+                // share their name and differ in what they compute
+                self.feat("method-three-forms");
+                let rv = self.fresh("rv");
+                let e = self.expr(&T::Struct(0), scope, d, pre);
+                write!(pre, "let {}: S0 = {}; ", rv, e).unwrap();
+                let k = self.int_lit(&T::I32);
+                Some(format!("((({rv}.tag({k}) * 3) + (S0::tag({rv}, {k}) * 5)) + (Tagged::tag({rv}, {k}) + Tagged::other({rv})))", rv = rv, k = k))
+            }
+            6 if *t == T::I32 && self.cfg.traits && self.cfg.generics => {
+                self.feat("method-via-bound");
+                let e = self.expr(&T::Enum(0), scope, d, pre);
+                Some(format!("tag_via_bound({})", e))
+            }
+            _ => None,
+        }
     }
 
     /// a pattern of type `t` with constructor nesting ≤ `depth`; its variables are added to `sc`
@@ -508,7 +709,6 @@ impl<'a> Gen<'a> {
                             write!(pre, "let {}: dyn Show = {}; ", v, tv).unwrap();
                             format!("Show::show({})", v)
                         }
-                        _ if matches!(st, T::Struct(_) | T::Enum(_)) => format!("{}.show()", tv),
                         _ => format!("Show::show({})", tv),
                     }
                 }
@@ -531,8 +731,36 @@ impl<'a> Gen<'a> {
             T::Struct(i) => {
                 self.feat("struct-lit");
                 let fts = self.structs[*i].fields.clone();
-                let fields: Vec<String> =
-                    fts.iter().enumerate().map(|(k, ft)| format!("f{}: {}", k, self.expr(ft, scope, d, pre))).collect();
+                let mut order: Vec<usize> = (0..fts.len()).collect();
+                if self.cfg.src_forms && fts.len() > 1 && self.rng.chance(1, 2) {
+                    self.feat("struct-lit-out-of-order");
+                    if self.rng.chance(1, 2) { order.reverse() } else { self.shuffle(&mut order) }
+                }
+                let in_order = order.iter().enumerate().all(|(a, b)| a == *b);
+                let mut fields = Vec::new();
+                for k in order {
+                    let mut e = self.expr(&fts[k], scope, d, pre);
+                    if !in_order && !self.cfg.lit_field_effects {
+                        // main stream: the initialisers are evaluated by `let`s in WRITTEN order and the
+                        // literal only mentions variables (the order in which a literal's own
+                        // initialisers run is the separate `lit_field_effects` stream)
+                        let tv = self.fresh("li");
+                        write!(pre, "let {} = {}; ", tv, e).unwrap();
+                        e = tv;
+                    } else if !in_order {
+                        // every initialiser announces itself when it runs
+                        self.feat("struct-lit-out-of-order-effectful");
+                        e = format!("trace(\"f{}\", {})", k, e);
+                    }
+                    // shorthand `S { f0 }` when a variable of that name and type is in scope
+                    // (`S { f0 }` with a single field is read as a block by the parser: needs two fields)
+                    if self.cfg.src_forms && fts.len() > 1 && e == format!("f{}", k) {
+                        self.feat("struct-lit-shorthand");
+                        fields.push(format!("f{}", k));
+                    } else {
+                        fields.push(format!("f{}: {}", k, e));
+                    }
+                }
                 format!("S{} {{ {} }}", i, fields.join(", "))
             }
             T::Enum(i) => {
@@ -675,6 +903,14 @@ impl<'a> Gen<'a> {
                     }
                     write!(s, "let ({}) = {}; ", pats.join(", "), name).unwrap();
                 }
+            }
+            7 if self.cfg.src_forms => {
+                self.feat("let-struct-pattern");
+                let si = self.rng.below(self.structs.len());
+                let mut pre = String::new();
+                let e = self.expr(&T::Struct(si), sc, depth.min(1), &mut pre);
+                let p = self.struct_pat(si, sc, false);
+                write!(s, "{}let {} = {}; ", pre, p, e).unwrap();
             }
             5 | 6 if self.cfg.traits => {
                 // an effectful trait method called for effect in every call form and statement position
@@ -825,6 +1061,21 @@ impl<'a> Gen<'a> {
             }
             writeln!(src, "enum E{} {{ {} }}", i, txt.join(", ")).unwrap();
             self.enums.push(EnumD { variants });
+        }
+        if self.cfg.src_forms {
+            writeln!(src, "enum EN {{ NA(S0, int32), NB, NC(int32) }}").unwrap();
+        }
+        if self.cfg.src_forms && self.cfg.traits {
+            writeln!(src, "impl S0 {{ fn tag(self: S0, k: int32) -> int32 {{ k + 1 }} }}").unwrap();
+            writeln!(src, "trait Tagged {{ fn tag(Self, int32) -> int32; fn other(Self) -> int32; }}").unwrap();
+            writeln!(src, "impl Tagged for S0 {{ fn tag(self: S0, k: int32) -> int32 {{ k + 100 }} fn other(self: S0) -> int32 {{ 7 }} }}").unwrap();
+            writeln!(src, "impl Tagged for E0 {{ fn tag(self: E0, k: int32) -> int32 {{ k + 200 }} fn other(self: E0) -> int32 {{ 8 }} }}").unwrap();
+            if self.cfg.generics {
+                writeln!(src, "fn tag_via_bound[T: Tagged](x: T) -> int32 {{ x.tag(1) + Tagged::other(x) }}").unwrap();
+            }
+        }
+        if self.cfg.lit_field_effects {
+            writeln!(src, "fn trace[T](s: string, v: T) -> T {{ let _ = string_println(s); v }}").unwrap();
         }
         if self.cfg.generics {
             writeln!(src, "enum Opt[T] {{ Non, Som(T) }}").unwrap();
